@@ -157,8 +157,10 @@ def plan(tier, seed):
     rows = list(range(1, 31)) + [99, 100, 101, 999, 1000, 1001, 9999, 10000]
     phases.append({'name': 'rows', 'cases': [{'rows': rows, 'mode': 'file'}], 'runner': 'run_rows', 'chunk': 1})
     # sheets without any cell at every position among the data sheets (indices of titles and of data must stay in step)
+    # ... and chart sheets (tabs without cells that are no worksheets at all): C
     phases.append({'name': 'empty-sheets-between', 'cases': [{'layout': list(l)} for l in
-                                                             itertools.product('DE', repeat=4) if l.count('D') >= 2],
+                                                             itertools.product('DEC', repeat=4) if l.count('D') >= 2 and l[0] != 'C'
+                                                             or l in (tuple('CDDE'), tuple('CDCD'))],
                    'runner': 'run_empty_between', 'chunk': 2})
     # "the current value(s)": the referenced cells get new values through Executor.set_cells (0, 0.0, FALSE and the empty text
     # included - the values an `or` default swallows), one or two cells at a time
@@ -601,13 +603,25 @@ def run_current(cases, stats):
     return vio
 
 
+def translate_with_order(sheets, titles):
+    """build the workbook, then put the sheets into the order of `titles` (a chart sheet can come first that way)"""
+    import io
+    from openpyxl import load_workbook
+    wb = load_workbook(D.build_xlsx(sheets))
+    wb._sheets.sort(key=lambda sh: titles.index(sh.title))
+    bio = io.BytesIO()
+    wb.save(bio)
+    bio.seek(0)
+    return D.translate(bio)
+
+
 def run_empty_between(cases, stats):
     """layout: a string over D (data sheet) / E (sheet without cells); every data sheet holds the planted block and, in
     column J, references to every data sheet (prefixed) and to itself (bare)."""
     vio = []
     for i, c in enumerate(cases):
         lay = c['layout']
-        titles = [f'T{j}' if k == 'D' else f'E {j}' for j, k in enumerate(lay)]
+        titles = [f'T{j}' if k == 'D' else (f'E {j}' if k == 'E' else f'Chart{j}') for j, k in enumerate(lay)]
         data = [j for j, k in enumerate(lay) if k == 'D']
         sheets = []
         expect = {}
@@ -632,8 +646,10 @@ def run_empty_between(cases, stats):
                 for e in [t for t, kk in enumerate(lay) if kk == 'E']:
                     cells[f'N{e + 1}'] = f"='{titles[e]}'!A1"
                     expect[(j, 'N', e + 1)] = None
-            sheets.append((titles[j], cells))
-        kind, text = D.translate(sheets)
+            sheets.append((titles[j], cells if k != 'C' else D.CHART_SHEET))
+        if lay[0] == 'C':
+            sheets.insert(0, sheets.pop(1))      # the chart needs a worksheet to be created first; it is moved in front below
+        kind, text = translate_with_order(sheets, titles) if lay[0] == 'C' else D.translate(sheets)
         stats['transitions'] += 1
         cls = None
         if kind == 'TEXT':
